@@ -53,3 +53,11 @@ RANGE_FIELDS = ['first', 'afterLast']
 # pathTail (last node of the pathHead list), reserved (back link used by dot removal),
 # afterLast (points into / one past the block held by `first`)
 NONOWNING_FIELDS = {'pathTail', 'reserved', 'afterLast'}
+
+# B.5 normalisation / done-mask bits by component class (field path of the text range inside the URI
+# or a path segment); portText has no bit.
+MASK_BIT_OF_CLASS = {
+    'scheme': 'URI_NORMALIZE_SCHEME', 'userInfo': 'URI_NORMALIZE_USER_INFO', 'hostText': 'URI_NORMALIZE_HOST',
+    'hostData.ipFuture': 'URI_NORMALIZE_HOST', 'text': 'URI_NORMALIZE_PATH', 'query': 'URI_NORMALIZE_QUERY',
+    'fragment': 'URI_NORMALIZE_FRAGMENT', 'portText': None,
+}
